@@ -4,6 +4,7 @@ import (
 	"fmt"
 
 	"github.com/btcsuite/btcd/btcutil"
+	"github.com/btcsuite/btcd/btcutil/bech32"
 	"github.com/btcsuite/btcd/chaincfg"
 	goatcrypto "github.com/goatnetwork/goat/pkg/crypto"
 	bitcointypes "github.com/goatnetwork/goat/x/bitcoin/types"
@@ -147,7 +148,28 @@ func (s *addrStream) Gen(r *tr.Rng) *tr.Op {
 		params := bitcointypes.BitcoinNetworks[from]
 		var a btcutil.Address
 		var str string
-		switch r.Intn(8) {
+		switch r.Intn(11) {
+		case 8: // segwit strings of every witness version and program length, with either checksum (bech32 / bech32m)
+			ver := byte(tr.Pick(r, 0, 1, 1, 2, 16, 17))
+			plen := tr.Pick(r, 20, 20, 32, 2, 40, 41, 1, 21)
+			conv, _ := bech32.ConvertBits(r.Bytes(plen), 8, 5, true)
+			data := append([]byte{ver}, conv...)
+			if r.Bool() {
+				str, _ = bech32.EncodeM(params.Bech32HRPSegwit, data)
+			} else {
+				str, _ = bech32.Encode(params.Bech32HRPSegwit, data)
+			}
+			cls += fmt.Sprintf("segwit-v%d-len%d", ver, plen)
+		case 9: // the simnet prefix (registered in btcd, not a network of the bridge), odd prefixes
+			conv, _ := bech32.ConvertBits(r.Bytes(20), 8, 5, true)
+			str, _ = bech32.Encode(tr.Pick(r, "sb", "BC", "bc1", "tb"), append([]byte{0}, conv...))
+			cls += "segwit-other-prefix"
+		case 10: // bytes that are not ASCII / not UTF-8 / control characters inside an otherwise valid address
+			a0, _ := btcutil.NewAddressWitnessPubKeyHash(r.Bytes(20), params)
+			b := []byte(a0.EncodeAddress())
+			b[4+r.Intn(len(b)-4)] = byte(tr.Pick(r, 0xc3, 0xff, 0x00, 0x7f, 0x20))
+			str = string(b)
+			cls += "non-ascii"
 		case 0, 1:
 			a, _ = btcutil.NewAddressWitnessPubKeyHash(r.Bytes(20), params)
 			cls += "p2wpkh"
